@@ -2,6 +2,7 @@ package main
 
 import (
 	"fmt"
+	"strings"
 	"time"
 
 	"github.com/fufuok/cache/zzverif/vshim"
@@ -41,7 +42,7 @@ type stallTarget struct {
 func newStallTarget(r rng, kind string, nkeys int) *stallTarget {
 	t := &stallTarget{}
 	switch kind {
-	case "Cache", "CacheOf[int,val]", "CacheOf[skey,val]":
+	case "Cache", "CacheOf[int,val]", "CacheOf[skey,val]", "CacheOf[string,any]":
 		c := newCache(cacheSpec{Flavor: kind, Ctor: "New", OptMask: 1 | 2, DefExp: time.Hour, Interval: 0, NKeys: nkeys})
 		t.name, t.zero, t.isCache = kind, c.Zero(), true
 		t.load = []func(int) (any, bool){c.Get,
@@ -67,13 +68,8 @@ func newStallTarget(r rng, kind string, nkeys int) *stallTarget {
 		t.stats = func() (int64, int64) { st, _ := c.Stats(); return st.TotalGrowths, st.TotalShrinks }
 	default:
 		sp := mapSpec{Flavor: kind, Hint: noHint, NKeys: nkeys}
-		switch kind {
-		case "MapOf[int,val]/const":
-			sp.Flavor, sp.Hasher = "MapOf[int,val]", "const"
-		case "MapOf[string,val]/sameh1":
-			sp.Flavor, sp.Hasher = "MapOf[string,val]", "sameh1"
-		case "MapOf[skey,val]/mix":
-			sp.Flavor, sp.Hasher = "MapOf[skey,val]", "mix"
+		if i := strings.IndexByte(kind, '/'); i >= 0 {
+			sp.Flavor, sp.Hasher = kind[:i], kind[i+1:]
 		}
 		m := newMap(sp)
 		t.name, t.zero, t.raw = kind, m.Zero(), m.Raw()
